@@ -4,6 +4,7 @@ C19 — Exported statistics tell the truth (sampled metrics part).
 Property theorems only; helper lemmas go to `Proofs/Window.lean`.
 -/
 import DnsVerif.Proofs.Window
+import DnsVerif.Props.C19b
 
 namespace DnsVerif.Props.C19
 open DnsVerif.Window DnsVerif.Spec.Stats
